@@ -3,6 +3,7 @@
   theorems are stated with (an implication no state satisfies would prove nothing).
 -/
 import UpdaterModel.Props.C04
+import UpdaterModel.Props.C04Eio
 import UpdaterModel.Props.C11
 import UpdaterModel.Props.C18
 
@@ -87,5 +88,28 @@ example : ∀ op ∈ [Op.start, Op.update none { resp := none, dl := none }, Op.
 /-- C03 / C09 / C18: a history configuring one key (none) is admissible. -/
 example : ∀ op ∈ [Op.start, Op.success, Op.nextN], InitKey none op := by
   intro op _ p c h; simp at *; rcases ‹_› with rfl | rfl | rfl <;> cases h
+
+/-- C04 (I/O error): a process whose launch start could not rewrite `patches_state.json` (the file
+    was left untouched) is in a faulted reachable state … -/
+example : EReach envN cfg [] d true d :=
+  EReach.fault (d := d) .start (files d) d.patches EReach.start ⟨_, rfl, rfl⟩ trivial (Or.inl (crashPairs_head _ _))
+
+/-- … from which the next launch does select a patch (so `eio_safe_next_launch` speaks about something). -/
+example : (recover envN cfg d).2 = some 2 := by
+  have h1 : loadOrNew d cfg.version = { pm := PM.new d, ss := { version := "1.0.0+1", events := [] } } :=
+    loadOrNew_settled d cfg.version _ rfl rfl
+  have h2 : secHandlePriorBootFailure envN cfg d = d := by
+    simp only [secHandlePriorBootFailure, h1]
+    simp [PM.new, loadPatchesState, d, JFile.getD, US.disk]
+  rw [recover, h2]
+  simp only [secNextBootPatch, h1]
+  simp [PM.new, loadPatchesState, d, JFile.getD, PM.nextBootPatch, validate, Disk.art, m2, List.lookup, cfg]
+
+/-- A reset whose first step fails (the emptied `patches_state.json` cannot be written) leaves the old
+    records under the new release version — with `patches/` gone: the case `InvE`'s second disjunct is for. -/
+example : (createNewAndSaveF d "2.0.0+1" true false false).patchesJson = d.patchesJson ∧
+    (createNewAndSaveF d "2.0.0+1" true false false).patches = none ∧
+    Settled (createNewAndSaveF d "2.0.0+1" true false false) "2.0.0+1" :=
+  ⟨rfl, rfl, ⟨_, rfl, rfl⟩⟩
 
 end Updater.NonVacuity
